@@ -3,7 +3,7 @@ import VibeProof.Model.Index
 State machine of ONE stored table with its constraint hash indexes, the user-defined indexes
 of the registry that name it, and the transaction / savepoint machinery
 (C15, C13, C14).  Every step is written as the executors sequence the storage calls
-(after the `fix:` commits d0a53f8a, b9e81ca0, b0911378, a2743cd5, ee88b7d7, e4da8cb8):
+(after the `fix:` commits d0a53f8a, b9e81ca0, b0911378, a2743cd5, ee88b7d7, e4da8cb8, 650ff828):
 
   INSERT            Database::insert_row / insert_rows_batch: Table::insert (push,
                     update_for_insert), add_to_indexes_for_insert, record_change(Insert)
@@ -16,9 +16,9 @@ of the registry that name it, and the transaction / savepoint machinery
   DELETE / TRUNCATE Table::clear + Database::rebuild_indexes; NOT recorded
   REPLACE           delete_where of the conflicting rows (+ rebuild_indexes if any), insert_row
   CREATE/DROP INDEX registry only
-  BEGIN             snapshot of rows and hash indexes (tables.clone()); registry NOT snapshotted
-  ROLLBACK          tables restored from the snapshot, registry index DATA rebuilt from the
-                    restored rows, registry index SET left as it is
+  BEGIN             snapshot of rows and hash indexes (tables.clone()) and of the index registry
+  ROLLBACK          tables and registry restored from the snapshot, registry index data
+                    rebuilt from the restored rows
   SAVEPOINT n       push (n, changes.len())
   ROLLBACK TO n     most recent savepoint named n; changes.drain(idx..) undone newest first with
                     Table::remove_row (first equal row; hash rebuild); later savepoints dropped;
@@ -38,6 +38,8 @@ structure UIdx where
 structure Txn where
   snapRows : List Row
   snapH : List HIdx
+  /-- the registry's user-defined indexes as they were at BEGIN (fix 650ff828) -/
+  snapU : List UIdx
   /-- savepoint stack, newest at the end: (name, length of the change log at creation) -/
   saves : List (String × Nat)
   /-- change log; only inserts are ever recorded (as coded) -/
@@ -190,7 +192,7 @@ def step (s : TState) : Op → TState × Option TErr
   | .begin =>
     match s.txn with
     | some _ => (s, some .txnActive)
-    | none => ({ s with txn := some { snapRows := s.rows, snapH := s.hidx, saves := [], log := [] } }, none)
+    | none => ({ s with txn := some { snapRows := s.rows, snapH := s.hidx, snapU := s.uidx, saves := [], log := [] } }, none)
   | .commit =>
     match s.txn with
     | none => (s, some .noTxn)
@@ -199,7 +201,7 @@ def step (s : TState) : Op → TState × Option TErr
     match s.txn with
     | none => (s, some .noTxn)
     | some t =>
-      ({ s with rows := t.snapRows, hidx := t.snapH, uidx := uRebuildAll s.uidx t.snapRows, txn := none }, none)
+      ({ s with rows := t.snapRows, hidx := t.snapH, uidx := uRebuildAll t.snapU t.snapRows, txn := none }, none)
   | .savepoint n =>
     match s.txn with
     | none => (s, some .noTxn)
